@@ -188,8 +188,12 @@ SolveFails(s, r, truth, exact) ==
    \cup Fail("IterLimit", s.iterlimit >= 0 => r.iters <= s.iterlimit)
    \cup Fail("AbortIterOnlyWithLimit", r.status = ST_ABORT_ITER => s.iterlimit >= 0)
    \cup Fail("AbortTimeOnlyWithCause", r.status = ST_ABORT_TIME => (BRIsFinite(s.tlimit) \/ r.interrupted))
+   \* the interrupt flag was raised before the call: not a single pivot may be performed (cold or warm start)
+   \cup Fail("InterruptHonoured", r.interrupted => r.iters = 0)
    \cup Fail("AbortValueOnlyWithLimit", r.status = ST_ABORT_VALUE => IF lp.sense = -1 THEN BRIsFinite(s.objup) ELSE BRIsFinite(s.objlo))
-   \cup Fail("AbortLeavesBasis", r.status \in {ST_ABORT_ITER, ST_ABORT_VALUE} => r.hasBasis)
+   \* an exact solve stopped before its first pivot on an object without a basis leaves it without one (hasBasis() = FALSE is
+   \* then the honest answer and the continuation is checked separately); the floating-point path stores the slack basis
+   \cup Fail("AbortLeavesBasis", r.status \in {ST_ABORT_ITER, ST_ABORT_VALUE} /\ (~exact \/ r.iters > 0) => r.hasBasis)
    \cup (IF truth.known THEN
            Fail("TruthOptimal", r.status = ST_OPTIMAL => truth.v = "OPT")
            \cup Fail("TruthInfeasible", r.status = ST_INFEASIBLE => truth.v \in {"INF", "PDINF"})
